@@ -71,6 +71,25 @@ def functions(tree):
     return out
 
 
+def cfunctions(tree):
+    """All `cdef` / `cpdef` functions (CFuncDefNode) of the module: [(name, node)].  The schema and bounds engines read
+    `def` functions only; these are listed so that nothing hides in one unnoticed."""
+    out = []
+    for n in walk(tree):
+        if tname(n) == "CFuncDefNode":
+            nm = None
+            e = getattr(n, "entry", None)
+            if e is not None:
+                nm = getattr(e, "name", None)
+            if nm is None:
+                d = getattr(n, "declarator", None)
+                while d is not None and not hasattr(d, "name"):
+                    d = getattr(d, "base", None)
+                nm = getattr(d, "name", None) or "<cdef@%d>" % n.pos[1]
+            out.append((str(nm), n))
+    return out
+
+
 def tstr(t):
     """Type as text, with a C-contiguous 1-D memoryview (`T[::1]`) written like the general one (`T[:]`): contiguity does
     not matter to the bounds, schema and decision-table analyses (R-C09-raw looks at the raw type)."""
